@@ -11,10 +11,12 @@ import (
 	"crypto/sha1"
 	"crypto/sha256"
 	"encoding/hex"
-	"sync/atomic"
 	"errors"
 	"fmt"
+	"runtime"
 	"strings"
+	"sync"
+	"sync/atomic"
 	"time"
 
 	"github.com/notaryproject/notation-core-go/revocation/result"
@@ -63,6 +65,85 @@ type caseT struct {
 	// trust anchor sits has nothing to do with revocation: the validator still sees the COMPLETE chain and a revoked
 	// certificate above the anchor still fails the validation.
 	Anchor int `json:"anchor"`
+	// The level around the revocation action. Base: 0 strict, 1 permissive, 2 audit (the named level the policy
+	// starts from); SibLog: which of the OTHER validations are only logged (bit 1 authenticity, 2 authenticTimestamp,
+	// 4 expiry; the rest enforced). Revocation's own action stays Action, reached through the minimal override.
+	Base   int `json:"base"`
+	SibLog int `json:"siblings_logged"`
+	// SibFail: which of the other validations of this very signature FAIL (same bits; only ever a subset of SibLog,
+	// so the verification goes on): 1 the chain does not lead to the trust store, 2 the leaf certificate expired
+	// before the signing time and before now (no timestamp), 4 the signature's expiry has passed. None of them has
+	// anything to do with revocation: it is still performed and judged exactly as for a flawless signature.
+	SibFail int `json:"siblings_failing"`
+	// ErrKind: which error the validator returns when VErr (0 plain, 1 context.Canceled, 2 context.DeadlineExceeded,
+	// 3 result.InvalidChainError, 4 a wrapped timeout error with Timeout() == true).
+	ErrKind int `json:"validator_error_kind"`
+	// Cancel: the caller's context. 0 live; 1 already cancelled before Verify; 2 cancelled while the validator call
+	// is in flight (the validator then answers as scripted); 3 as 2 but the context reports DeadlineExceeded. Only
+	// the implications of the statement are judged here (a failing vector must not pass; whatever chain the
+	// validator sees is complete): an implementation may legitimately give up with the context's error.
+	Cancel int `json:"cancel"`
+}
+
+const (
+	sibAuth = 1
+	sibTS   = 2
+	sibExp  = 4
+)
+
+var baseNames = []string{"strict", "permissive", "audit"}
+
+// seamCtx is a caller context whose end the harness owns (no timers).
+type seamCtx struct {
+	context.Context
+	mu   sync.Mutex
+	done chan struct{}
+	err  error
+	kind error
+}
+
+func newSeamCtx(kind error) *seamCtx {
+	return &seamCtx{Context: context.Background(), done: make(chan struct{}), kind: kind}
+}
+func (s *seamCtx) Done() <-chan struct{} { return s.done }
+func (s *seamCtx) Err() error             { s.mu.Lock(); defer s.mu.Unlock(); return s.err }
+func (s *seamCtx) fire() {
+	s.mu.Lock()
+	if s.err == nil {
+		s.err = s.kind
+		close(s.done)
+	}
+	s.mu.Unlock()
+}
+
+// gid: the id of the calling goroutine (only used to avoid a pointless pause, never to judge).
+func gid() string {
+	var b [64]byte
+	f := strings.Fields(string(b[:runtime.Stack(b[:], false)]))
+	if len(f) >= 2 {
+		return f[1]
+	}
+	return ""
+}
+
+type timeoutErr struct{}
+
+func (timeoutErr) Error() string   { return "mock: i/o timeout" }
+func (timeoutErr) Timeout() bool   { return true }
+func (timeoutErr) Temporary() bool { return true }
+
+func validatorError(kind int) error {
+	switch kind {
+	case 1:
+		return context.Canceled
+	case 2:
+		return context.DeadlineExceeded
+	case 3:
+		return result.InvalidChainError{Err: errors.New("mock: invalid chain")}
+	case 4:
+		return fmt.Errorf("mock: validator failed: %w", timeoutErr{})
+	}
+	return errors.New("mock: validator failed")
 }
 
 func (c caseT) vecString() string {
@@ -76,14 +157,26 @@ func (c caseT) vecString() string {
 type world struct {
 	emptyChains map[int]*pki.Chain
 	chains      map[int]*pki.Chain
+	lateChains  map[int]*pki.Chain // same CAs, the leaf expired before the signing time (authentic timestamp fails)
+	levels      map[string]vt.Level
 	desc        ocispec.Descriptor
 	envs        map[string][]byte
 	signTime    time.Time
 
 	controls, controlsOK atomic.Int64 // all-OK vectors (positive controls) and how many of them passed
+	sibCases, sibFailed  atomic.Int64 // cases built so that another validation fails, and in how many it did
 }
 
-var ctx = context.Background()
+func levelKey(base, sibLog int, action string) string {
+	return fmt.Sprintf("%d/%d/%s", base, sibLog, action)
+}
+
+func act(logged bool) vt.A {
+	if logged {
+		return "log"
+	}
+	return "enforce"
+}
 
 func (w *world) run(r *hx.Run, c caseT) {
 	ch := w.chains[c.N]
@@ -96,6 +189,32 @@ func (w *world) run(r *hx.Run, c caseT) {
 	if c.EmptyLeafSubject {
 		env = w.envs[fmt.Sprintf("e%d/%d/%d", c.N, c.Scheme, c.Format)]
 	}
+	if c.SibFail&(sibTS|sibExp) != 0 {
+		if c.SibFail&sibTS != 0 {
+			ch = w.lateChains[c.N]
+		}
+		env = w.envs[fmt.Sprintf("s%d/%d/%d/%d", c.N, c.Scheme, c.Format, c.SibFail&(sibTS|sibExp))]
+	}
+	if c.SibFail&^c.SibLog != 0 || c.Base < 0 || c.Base > 2 || ch == nil || env == nil {
+		r.Infra("case outside the enumeration: %+v", c)
+		return
+	}
+	// the caller's context (seam): ended by the harness, before the call or from inside the validator
+	var ctx context.Context = context.Background()
+	var seam *seamCtx
+	if c.Cancel > 0 {
+		kind := context.Canceled
+		if c.Cancel == 3 {
+			kind = context.DeadlineExceeded
+		}
+		seam = newSeamCtx(kind)
+		ctx = seam
+		if c.Cancel == 1 {
+			seam.fire()
+		}
+	}
+	released := make(chan struct{}) // closed when the judged Verify has returned
+	var verifyGoroutine string
 	priorPhase := c.Prior == 1
 	script := func(chain []*x509.Certificate) ([]*result.CertRevocationResult, error) {
 		if priorPhase {
@@ -105,8 +224,20 @@ func (w *world) run(r *hx.Run, c caseT) {
 			}
 			return out, nil
 		}
+		if c.Cancel >= 2 {
+			// the context ends while this call is in flight. A verifier that waits for the answer on this very
+			// goroutine gets it at once; one that called from another goroutine gets it after it had every chance
+			// to notice the context (when its Verify returned, at the latest after a bounded pause).
+			seam.fire()
+			if gid() != verifyGoroutine {
+				select {
+				case <-released:
+				case <-time.After(hx.Budget(250 * time.Millisecond)):
+				}
+			}
+		}
 		if c.VErr {
-			return nil, errors.New("mock: validator failed")
+			return nil, validatorError(c.ErrKind)
 		}
 		out := make([]*result.CertRevocationResult, len(chain))
 		for i := range chain {
@@ -136,9 +267,10 @@ func (w *world) run(r *hx.Run, c caseT) {
 		opts.RevocationCodeSigningValidator = primary
 		opts.RevocationClient = other.Client()
 	}
-	lv := vt.Level{Base: "strict", Map: map[vt.T]vt.A{trustpolicy.TypeRevocation: vt.A(c.Action)}}
-	if c.Action != "enforce" {
-		lv.Override = map[vt.T]vt.A{trustpolicy.TypeRevocation: vt.A(c.Action)}
+	lv, ok := w.levels[levelKey(c.Base, c.SibLog, c.Action)]
+	if !ok {
+		r.Infra("no level for %+v", c)
+		return
 	}
 	opts.OCITrustPolicy = vt.OCIDoc(lv.SV(), []string{storeType + ":s"}, []string{"*"})
 	if c.Plugin == 1 {
@@ -149,6 +281,9 @@ func (w *world) run(r *hx.Run, c caseT) {
 	pinned := ch.Root().Cert
 	if c.Anchor > 0 {
 		pinned = ch.X509()[c.Anchor-1]
+	}
+	if c.SibFail&sibAuth != 0 {
+		pinned = w.chains[c.N%4+1].Root().Cert // an unrelated authority: the signature's chain does not lead to the store
 	}
 	ts := mocks.NewTrustStore().Put(storeType, "s", pinned)
 	var v notation.Verifier
@@ -166,12 +301,14 @@ func (w *world) run(r *hx.Run, c caseT) {
 	}
 	if c.Prior == 1 {
 		r.Eval(1)
-		_, _ = v.Verify(ctx, w.desc, env, notation.VerifierVerifyOptions{ArtifactReference: "reg.io/r@" + w.desc.Digest.String(), SignatureMediaType: forge.Formats[c.Format]})
+		_, _ = v.Verify(context.Background(), w.desc, env, notation.VerifierVerifyOptions{ArtifactReference: "reg.io/r@" + w.desc.Digest.String(), SignatureMediaType: forge.Formats[c.Format]})
 		priorPhase = false
 		primary.Calls, other.Calls = nil, nil
 	}
 	r.Eval(1)
+	verifyGoroutine = gid()
 	outcome, verr := v.Verify(ctx, w.desc, env, notation.VerifierVerifyOptions{ArtifactReference: "reg.io/r@" + w.desc.Digest.String(), SignatureMediaType: forge.Formats[c.Format]})
+	close(released)
 	bad := func(key, what string) {
 		if c.Plugin == 1 {
 			key += ":with-trusted-identity-plugin"
@@ -188,7 +325,21 @@ func (w *world) run(r *hx.Run, c caseT) {
 		if c.Anchor > 0 {
 			key += ":trust-anchor-below-the-root"
 		}
-		r.Violation(key, fmt.Sprintf("%s | n=%d vector=%s method=%v servers=%d validatorError=%v iface=%d action=%s scheme=%s", what, c.N, c.vecString(), methods[c.Method], c.Servers, c.VErr, c.Iface, c.Action, scheme), c)
+		if c.SibFail != 0 {
+			key += ":another-validation-failed-but-is-logged"
+		} else if c.SibLog != 0 || c.Base != 0 {
+			key += ":other-validations-at-another-action"
+		}
+		if c.VErr && c.ErrKind != 0 {
+			key += ":typed-validator-error"
+		}
+		switch c.Cancel {
+		case 1:
+			key += ":context-already-done"
+		case 2, 3:
+			key += ":context-done-during-validator-call"
+		}
+		r.Violation(key, fmt.Sprintf("%s | n=%d vector=%s method=%v servers=%d validatorError=%v(kind %d) iface=%d action=%s scheme=%s level=%s failingSiblings=%d cancel=%d", what, c.N, c.vecString(), methods[c.Method], c.Servers, c.VErr, c.ErrKind, c.Iface, c.Action, scheme, lv, c.SibFail, c.Cancel), c)
 	}
 	if outcome == nil && verr == nil {
 		bad("nil-outcome", "Verify returned neither an outcome nor an error")
@@ -239,12 +390,36 @@ func (w *world) run(r *hx.Run, c caseT) {
 		r.Outcome("skip:not-performed")
 		return
 	}
+	if c.SibFail != 0 {
+		// non-vacuity of the premise only: the other validations this case was built to fail did fail
+		w.sibCases.Add(1)
+		asBuilt := true
+		for bit, t := range map[int]vt.T{sibAuth: trustpolicy.TypeAuthenticity, sibTS: trustpolicy.TypeAuthenticTimestamp, sibExp: trustpolicy.TypeExpiry} {
+			if c.SibFail&bit == 0 {
+				continue
+			}
+			failed := false
+			for _, x := range vt.ResultOf(outcome, t) {
+				failed = failed || x.Error != nil
+			}
+			asBuilt = asBuilt && failed
+		}
+		if asBuilt {
+			w.sibFailed.Add(1)
+		} else {
+			rec("premise/another-validation-built-to-fail-did-not-fail")
+		}
+	}
 	if len(other.Calls) != 0 {
 		rec("calls/deprecated-client-consulted-although-validator-set")
 		calls = append(calls, other.Calls...)
 	}
 	if len(calls) == 0 {
-		bad("calls/count", "revocation is not skipped but no validator was consulted")
+		if c.Cancel > 0 {
+			rec("calls/none-under-a-done-context") // giving up before asking is the implementation's choice
+		} else {
+			bad("calls/count", "revocation is not skipped but no validator was consulted")
+		}
 	}
 	if len(calls) > 1 {
 		rec("calls/validator-consulted-more-than-once")
@@ -284,7 +459,11 @@ func (w *world) run(r *hx.Run, c caseT) {
 		}
 	}
 	failedReported := len(msgs) > 0
-	if pass {
+	if pass && c.Cancel > 0 {
+		if failedReported || verr != nil {
+			rec("cancel/all-ok-vector-not-passed-under-a-done-context")
+		}
+	} else if pass {
 		w.controls.Add(1)
 		if failedReported || verr != nil {
 			rec("control/all-ok-vector-not-passed")
@@ -308,7 +487,9 @@ func (w *world) run(r *hx.Run, c caseT) {
 			}
 		}
 		msg := strings.Join(msgs, " | ")
-		if len(msgs) > 0 {
+		if len(msgs) > 0 && c.Cancel > 0 {
+			rec("cancel/failed-under-a-done-context(kind of failure not judged)")
+		} else if len(msgs) > 0 {
 			if class == "fail-revoked" {
 				if !strings.Contains(strings.ToLower(msg), "revok") && !strings.Contains(strings.ToLower(msg), "revoc") {
 					bad("result/revoked-not-reported-as-revoked", msg)
@@ -340,8 +521,14 @@ func (w *world) run(r *hx.Run, c caseT) {
 		}
 	}
 	r.Outcome(c.Action + ":" + class)
+	if c.SibFail != 0 {
+		r.Outcome(fmt.Sprintf("sibling-failed-logged(%d):%s:%s", c.SibFail, c.Action, class))
+	}
+	if c.Cancel > 0 {
+		r.Outcome(fmt.Sprintf("context-done(%d):%s:%s", c.Cancel, c.Action, class))
+	}
 	if !pass {
-		r.Nontrivial(fmt.Sprintf("%d|%v|%d|%d|%v|%d|%s|%d|%d", c.N, c.Vec, c.Method, c.Servers, c.VErr, c.Iface, c.Action, c.Scheme, c.Format))
+		r.Nontrivial(fmt.Sprintf("%d|%v|%d|%d|%v|%d|%s|%d|%d|%d.%d.%d|%d|%d", c.N, c.Vec, c.Method, c.Servers, c.VErr, c.Iface, c.Action, c.Scheme, c.Format, c.Base, c.SibLog, c.SibFail, c.ErrKind, c.Cancel))
 	}
 }
 
@@ -375,12 +562,50 @@ func namedIn(msg string, c *x509.Certificate) bool {
 
 func main() {
 	r := hx.New("C05")
-	r.Rule = "all result vectors over {OK, NonRevokable, Unknown, Revoked, undefined}^n (n=1..4, leaf first) crossed with method annotation, per-server errors, validator error, validator interface, action, scheme and format; one real verifier.Verify per case; non-trivial = distinct cases whose aggregated result is not a pass"
+	r.Rule = "all result vectors over {OK, NonRevokable, Unknown, Revoked, undefined}^n (n=1..4, leaf first) crossed with method annotation, per-server errors, validator error (5 kinds), validator interface, action, scheme and format; again under every action combination of the other validations from every named base level and with every subset of the logged other validations failing on the signature; again with the caller's context done before Verify / during the validator call; one real verifier.Verify per case; non-trivial = distinct cases whose aggregated result is not a pass"
 	r.Assumptions = []string{"validator answers with exactly one result per certificate of the chain (vectors of other lengths are outside the quantifier)", "scripted validator from lib/mocks"}
-	w := &world{chains: map[int]*pki.Chain{}, emptyChains: map[int]*pki.Chain{}, envs: map[string][]byte{}, signTime: time.Now().Add(-48 * time.Hour).Truncate(time.Second).UTC()}
+	w := &world{chains: map[int]*pki.Chain{}, emptyChains: map[int]*pki.Chain{}, lateChains: map[int]*pki.Chain{}, levels: map[string]vt.Level{}, envs: map[string][]byte{}, signTime: time.Now().Add(-48 * time.Hour).Truncate(time.Second).UTC()}
 	w.desc = ocispec.Descriptor{MediaType: "application/vnd.oci.image.manifest.v1+json", Digest: digest.FromString("c05"), Size: 3}
+	// every way of writing every enforcement map (vt.Levels: 3 named bases x minimal override), by base, the other
+	// validations' actions and revocation's action
+	for _, l := range vt.Levels() {
+		b := map[string]int{"strict": 0, "permissive": 1, "audit": 2}[l.Base]
+		sl := 0
+		if l.Map[trustpolicy.TypeAuthenticity] == "log" {
+			sl |= sibAuth
+		}
+		if l.Map[trustpolicy.TypeAuthenticTimestamp] == "log" {
+			sl |= sibTS
+		}
+		if l.Map[trustpolicy.TypeExpiry] == "log" {
+			sl |= sibExp
+		}
+		w.levels[levelKey(b, sl, string(l.Map[trustpolicy.TypeRevocation]))] = l
+	}
 	for n := 1; n <= 4; n++ {
 		w.chains[n] = pki.NewChain(pki.ChainOpts{Len: n, Prefix: fmt.Sprintf("len%d", n), CAIdx: n})
+		// the same authorities, the same leaf key and name, but the leaf's validity ended a day before the signing
+		// time (three days ago): without a timestamp the authentic-timestamp validation fails under both schemes
+		lateOpts := pki.ChainOpts{Len: n, Prefix: fmt.Sprintf("len%d", n), CAIdx: n, Leaf: &pki.Tmpl{Subject: pki.Name(fmt.Sprintf("len%d leaf", n)), NotBefore: w.signTime.Add(-30 * 24 * time.Hour), NotAfter: w.signTime.Add(-24 * time.Hour)}}
+		if n >= 2 {
+			lateOpts.ReuseCAs = w.chains[n].Certs[1:]
+		}
+		w.lateChains[n] = pki.NewChain(lateOpts)
+		for s := 0; s < 2; s++ {
+			for f := 0; f < 2; f++ {
+				for sf := sibTS; sf <= sibTS|sibExp; sf += 2 { // 2 late leaf, 4 expired signature, 6 both
+					sch := w.chains[n]
+					if sf&sibTS != 0 {
+						sch = w.lateChains[n]
+					}
+					sp := forge.Spec{Format: forge.Formats[f], Chain: sch.X509(), Key: sch.Leaf().Key, Payload: forge.PayloadFor(w.desc), Scheme: []string{forge.SchemeX509, forge.SchemeSA}[s], SigningTime: w.signTime}
+					if sf&sibExp != 0 {
+						sp.Expiry = w.signTime.Add(time.Hour) // 47 h ago
+					}
+					w.envs[fmt.Sprintf("s%d/%d/%d/%d", n, s, f, sf)] = forge.Build(sp)
+				}
+			}
+		}
 		if n >= 2 {
 			w.emptyChains[n] = pki.NewChain(pki.ChainOpts{Len: n, Prefix: fmt.Sprintf("len%d", n), CAIdx: n, ReuseCAs: w.chains[n].Certs[1:], Leaf: &pki.Tmpl{RawSubject: []pkix.RelativeDistinguishedNameSET{}}})
 			for s := 0; s < 2; s++ {
@@ -467,12 +692,85 @@ func main() {
 				}
 			}
 		}
-		// validator-level error
+		// validator-level error, of every kind
 		for iface := 0; iface < 3; iface++ {
 			for _, act := range []string{"enforce", "log", "skip"} {
 				for sc := 0; sc < 2; sc++ {
 					for f := 0; f < 2; f++ {
-						cases = append(cases, caseT{N: n, Vec: make([]int, n), VErr: true, Iface: iface, Action: act, Scheme: sc, Format: f})
+						for ek := 0; ek < 5; ek++ {
+							cases = append(cases, caseT{N: n, Vec: make([]int, n), VErr: true, ErrKind: ek, Iface: iface, Action: act, Scheme: sc, Format: f})
+						}
+					}
+				}
+			}
+		}
+		// The rest of the level and the rest of the signature. Revocation's action is one entry of an enforcement
+		// map and revocation is one of several validations of a signature: every vector (and the validator error)
+		// is judged again (a) under every combination of actions of the OTHER validations (enforce/log for
+		// authenticity, authentic timestamp, expiry), written from every named base level, and (b) on signatures
+		// on which any subset of those other validations fails while only logged, so that verification goes on.
+		// quick: n <= 2 in full, n = 3 on the context-aware validator with exactly the failing validations logged
+		// or nothing failing; thorough: n <= 3 in full, n = 4 as quick's n = 3.
+		fullSib := n <= 2 || (r.Thorough() && n == 3)
+		if fullSib || n == 3 || r.Thorough() {
+			vs := append([][]int{}, vecs...)
+			vs = append(vs, nil) // nil: the validator error
+			for vi, vec := range vs {
+				for sl := 0; sl < 8; sl++ {
+					for sf := 0; sf < 8; sf++ {
+						if sf&^sl != 0 || (!fullSib && sf != 0 && sf != sl) {
+							continue
+						}
+						for iface := 0; iface < 3; iface++ {
+							if !fullSib && iface != 0 {
+								continue
+							}
+							for ai, act := range []string{"enforce", "log"} {
+								for sc := 0; sc < 2; sc++ {
+									for base := 0; base < 3; base++ {
+										for f := 0; f < 2; f++ {
+											if !r.Thorough() && (base != (vi+sl+sf+iface+ai+sc)%3 || f != (vi+sl+sf+iface+ai+sc+n)%2) {
+												continue // quick: base level and format rotate (deterministic)
+											}
+											if base == 0 && sl == 0 {
+												continue // the plain family above
+											}
+											c := caseT{N: n, Vec: vec, Iface: iface, Action: act, Scheme: sc, Format: f, Base: base, SibLog: sl, SibFail: sf}
+											if vec == nil {
+												c.Vec, c.VErr = make([]int, n), true
+											}
+											cases = append(cases, c)
+										}
+									}
+								}
+							}
+						}
+					}
+				}
+			}
+		}
+		// The caller's context ends: before Verify, or while the validator call is in flight (cancelled / deadline
+		// exceeded); the validator answers as scripted afterwards. quick: n <= 2; thorough: n <= 3.
+		if n <= 2 || (r.Thorough() && n == 3) {
+			vs := append([][]int{}, vecs...)
+			vs = append(vs, nil)
+			for _, vec := range vs {
+				for cancel := 1; cancel <= 3; cancel++ {
+					for iface := 0; iface < 3; iface++ {
+						for _, act := range []string{"enforce", "log"} {
+							for sc := 0; sc < 2; sc++ {
+								for f := 0; f < 2; f++ {
+									if !r.Thorough() && f != (cancel+iface+sc)%2 {
+										continue
+									}
+									c := caseT{N: n, Vec: vec, Iface: iface, Action: act, Scheme: sc, Format: f, Cancel: cancel}
+									if vec == nil {
+										c.Vec, c.VErr = make([]int, n), true
+									}
+									cases = append(cases, c)
+								}
+							}
+						}
 					}
 				}
 			}
@@ -488,6 +786,11 @@ func main() {
 	}, nil)
 	r.Extra["positive_controls"] = w.controls.Load()
 	r.Extra["positive_controls_passed"] = w.controlsOK.Load()
+	r.Extra["cases_with_another_validation_failing"] = w.sibCases.Load()
+	r.Extra["cases_with_another_validation_failing_as_built"] = w.sibFailed.Load()
+	if w.sibCases.Load() > 0 && w.sibFailed.Load() == 0 {
+		r.Infra("vacuous run: in none of the %d cases built so that another validation fails did it fail", w.sibCases.Load())
+	}
 	if w.controls.Load() > 0 && w.controlsOK.Load() == 0 {
 		r.Infra("vacuous run: none of the %d all-OK vectors passed revocation", w.controls.Load())
 	}
